@@ -349,7 +349,7 @@ M("c15-locals-positional", ["C15"], VM,
   "        if compiled.name and compiled.name in compiled.locals:\n            name_slot = compiled.locals.index(compiled.name)",
   "        if compiled.name and compiled.name == compiled.locals[len(compiled.params) + 1 : len(compiled.params) + 2][0:1]:\n            name_slot = compiled.locals.index(compiled.name)",
   [("C15", "C15-R1", "locals")],
-  more=[(CO, "        for var in sorted(local_vars_set):", "        for var in local_vars_set:", 1)],
+  more=[(CO, "        for var in sorted(local_vars_set):", "        for var in local_vars_set:", 2)],
   note="positional use of the locals table, with the table back in set order (since fix cceea8f the table alone is sorted)")
 M("c15-message-with-repr", ["C15"], VM,
   "raise JSTypeError(f\"{to_string(callee)} is not a function\")", "raise JSTypeError(f\"{callee} is not a function\")",
@@ -761,9 +761,9 @@ M("c07-uncaught-name-dropped", ["C07"], VM,
 
 M("c15-slots-in-set-order-again", ["C15"], CO,
   "        for var in sorted(local_vars_set):", "        for var in local_vars_set:",
-  [("C15", "C15-R1d", "_emit:message")], note="fix cceea8f reverted for locals: the slot number printed by the too-large error depends on the hash seed again")
+  [("C15", "C15-R1d", "_emit:message")], count=2, note="fix cceea8f reverted for locals (both function compilers): the slot number printed by the too-large error depends on the hash seed again")
 T("t-c15-sorted-with-key", ["C15", "C05"], CO,
-  "        for var in sorted(local_vars_set):", "        for var in sorted(local_vars_set, key=str):")
+  "        for var in sorted(local_vars_set):", "        for var in sorted(local_vars_set, key=str):", count=2)
 M("c13-lexer-unicode-digits", ["C13", "C04"], LX,
   "        while self._current() and _is_digit(self._current()):\n            self._advance()\n\n        # Decimal point",
   "        while self._current() and self._current().isdigit():\n            self._advance()\n\n        # Decimal point",
@@ -1313,3 +1313,32 @@ M("c09-optional-reset-before-split", ["C09"], RC,
 M("c09-unrolled-copies-keep-captures", ["C09"], RC,
   "        for _ in range(min_count):\n            self._emit_capture_reset(capture_groups)\n            self._compile_node(body)\n\n        # Then emit * for the rest\n", "        for _ in range(min_count):\n            self._compile_node(body)\n\n        # Then emit * for the rest\n",
   [("C09", "C09-R9", "_compile_at_least:unrolled")], note="fix 45df918 reverted for {n,}")
+M("c13-line-continuation-kept", ["C13"], LX,
+  "                elif escape in (\"\\n\", \"\\u2028\", \"\\u2029\"):\n                    # A line continuation: backslash and line break are not\n                    # part of the value\n                    pass\n", "",
+  [("C13", "C13-R17", "line-continuation")], note="fix 1671805 reverted for strings")
+M("c13-regex-not-on-slash-assign", ["C13"], PA,
+  "        if self._check(TokenType.SLASH, TokenType.SLASH_ASSIGN):\n", "        if self._check(TokenType.SLASH):\n",
+  [("C13", "C13-R17", "regex-on-slash-assign")], note="fix 1671805 reverted for /=a/")
+M("c16-includes-accepts-regexp", ["C16"], VM,
+  "            if args and isinstance(args[0], JSRegExp):\n                raise JSTypeError(\n                    \"First argument to String.prototype.includes must not be a regular expression\"\n                )\n", "",
+  [("C16", "C16-R13", "includes")], note="fix reverted for includes")
+M("c05-arrow-vars-not-registered", ["C05"], CO,
+  "        for var in sorted(local_vars_set):\n            if var not in self.locals:\n                self.locals.append(var)\n\n        # Nested functions look their outer variables up in this list\n", "        # Nested functions look their outer variables up in this list\n",
+  [("C05", "C05-R15", "_compile_arrow_function")], note="fix 4a2a34b reverted: the arrow compiler collects the declared names but does not register them")
+
+# ---- wave 15 --------------------------------------------------------------------------------------------
+S("seed-C02-i", ["C02", "C05"], "seeded/C02-i/patch.diff", [("C02", "C02-R6", "finally-rethrow"), ("C05", "C05-R3", "finally-rethrow")], note="the operand bookkeeping of leaving contexts made the else of `if ctx.is_try`: the pseudo-contexts that are try contexts AND hold an operand are skipped")
+S("seed-C05-i", ["C05", "C02"], "seeded/C05-i/patch.diff", [("C05", "C05-R3", "switch"), ("C02", "C02-R6", "switch")], note="a labelled switch built as a labelled non-loop context: the unlabelled-break search skips it")
+S("seed-C07-i", ["C07"], "seeded/C07-i/patch.diff", [("C07", "C07-R10", "_call_callback")], note="frames of the callback deleted in the finally of the nested run loop: the error is stamped with the caller's location")
+S("seed-C10-h", ["C10", "C09"], "seeded/C10-h/patch.diff", [("C10", "C10-R8", "_run_lookbehind"), ("C09", "C09-R5", "_run_lookbehind")], note="lookbehind window without the clamp at 0: the matcher is entered at a negative position")
+S("seed-C17-h", ["C17"], "seeded/C17-h/patch.diff", [("C17", "C17-R10", "visited_elements")], note="the element generator binds arr._elements once: splice and length assignment replace the list under it")
+S("seed-C20-h", ["C20"], "seeded/C20-h/patch.diff", [("C20", "C20-R13", "match_all")], note="match_all on one matcher: the early exit on a failed attempt no longer resets lastIndex")
+TP("t-match-all-own-matcher", ALL_PROPS, "selftest/patches/t-match-all-own-matcher.diff", note="the same scan with lastIndex reset on the early exit (repaired C20-h)")
+S("seed-C12-h", ["C12"], "seeded/C12-h/patch.diff", [("C12", "C12-R10", "begin_evaluation")], note="one interpreter per context, re-initialised for every top-level evaluation without clearing the handler records")
+TP("t-context-keeps-one-interpreter", ALL_PROPS, "selftest/patches/t-context-keeps-one-interpreter.diff", note="the same design with the handler stack cleared (repaired C12-h)")
+S("seed-C08-h", ["C08"], "seeded/C08-h/patch.diff", [("C08", "C08-R21", "hasOwnProperty|getOwnPropertyDescriptor")], note="has_own helper written on top of the chain-walking get_getter/get_setter")
+TP("t-has-own-helper", ALL_PROPS, "selftest/patches/t-has-own-helper.diff", note="the same helper on the receiver's own tables (repaired C08-h)")
+S("seed-C03-h", ["C03"], "seeded/C03-h/patch.diff", [("C03", "C03-R11", "_get_source_location")], note="location helper returns None on one exit and (None, None) on another; the caller's single test lets host Nones into lineNumber/columnNumber")
+TP("t-thrown-values-arrive-unstamped", ALL_PROPS, "selftest/patches/t-thrown-values-arrive-unstamped.diff", note="the same change with one spelling of nothing (repaired C03-h)")
+S("seed-C19-h", ["C19"], "seeded/C19-h/patch.diff", [("C19", "C19-R10", "_JSON_ESCAPES")], note="own JSON escape table: an update over all of range(0x20) overwrites the five short escapes", silent=("C12", "C15"))
+TP("t-json-quote-table", ALL_PROPS, "selftest/patches/t-json-quote-table.diff", note="the same table built in the right order (repaired C19-h)")
